@@ -40,7 +40,7 @@ ASSUMPTIONS = [
 MANIFEST = {
     "level": LEVEL,
     "technique": "deterministic simulation: one program observed under a vector of (hash seed, heap-layout seed, worklist schedule) configurations in pinned fresh interpreters; observations must agree",
-    "text": "Seeded search over programs x configurations: generated programs (accepted and rejected, with k>=2 candidate mistakes so that a nondeterministic choice is visible), the tests/error corpus and the test functions of tests/integration (551 items, every public check/compile call they make) are compiled under several PYTHONHASHSEED values, seeded heap layouts (ASLR off, shipped set.pop()) and seeded worklist schedules (hook); sha256 of the emitted package / the rendered diagnostic must be identical across the vector. Disagreements are confirmed alone, minimised and written as a two-configuration replay. Sampling, not proof.",
+    "text": "Seeded search over programs x configurations: generated programs (accepted and rejected, with k>=2 candidate mistakes so that a nondeterministic choice is visible), the tests/error corpus and the test functions of tests/integration (551 items, every public check/compile call they make) are compiled under several PYTHONHASHSEED values, seeded heap layouts (ASLR off, a seeded allocate/free pattern before the batch and a seeded free-list scatter right before every program, so that the relative address order of objects the compiler allocates back to back varies with the layout seed; shipped set.pop()) and seeded worklist schedules (hook); one program in 19 is defined without retrievable source; sha256 of the emitted package / the rendered diagnostic must be identical across the vector. Disagreements are confirmed alone, minimised and written as a two-configuration replay. Sampling, not proof.",
     "note": "Trusted: ASLR-off + PYTHONHASHSEED make a fresh interpreter's layout a function of its allocation history (self-tested), the program generator as workload, the compat shim.",
     "design_ref": "DESIGN.md section 3 (C10)",
 }
